@@ -82,6 +82,12 @@ def build(spec):
         m = rs['dro'].Model()
     elif fe == 'lp':
         m = rs['lp'].Model()
+    elif fe == 'socp':
+        from rsome import socp
+        m = socp.Model()
+    elif fe == 'gcp':
+        from rsome import gcp
+        m = gcp.Model()
     else:
         raise ValueError(fe)
     n = spec['n']
